@@ -1,6 +1,7 @@
 import KitModel.TTLCache
 import KitProofs.Lemmas.TTLCache
 import KitProofs.Lemmas.TTLCacheConc
+import KitProofs.Lemmas.TTLCacheAccept
 /-!
 # C15 — ttlcache: Get never returns an expired, deleted or superseded value
 
@@ -489,6 +490,86 @@ theorem hit_is_fresh_trace : hit_is_fresh_trace_statement := by
   · simp only [] at hexp
     rw [hd] at hexp
     omega
+
+/-! ## soundness of the scheduled-interleaving acceptor (`respond` / `drive`, run by `kitdrv C15`)
+
+A real scheduled trace is *accepted* when every answer `drive` computes for the script equals what
+the harness observed on the real cache. The answers are produced by running labels of the LTS;
+these theorems say so, hence every theorem about runs applies to every accepted real trace. -/
+
+/-- **accepted_trace_is_run.** The labels executed for a script form a run of the LTS from the
+initial state to the acceptor's final state (which is therefore reachable); the callers' history of
+that run is exactly the script's Set/Delete/Advance requests; the answer at each position is the
+acceptor's answer in the state reached by the preceding requests. -/
+theorem accepted_trace_is_run (maxTTL t0 period : Int) (rs : List Req) :
+    let d := drive (CState.init maxTTL t0 period) rs
+    crun (CState.init maxTTL t0 period) d.2.2 = some d.1 ∧
+    Reach maxTTL t0 period d.1 ∧
+    d.2.2.filterMap projOp = rs.filterMap reqOp := by
+  refine ⟨drive_sound _ rs, ?_, drive_projOp _ rs⟩
+  exact reach_of_crun _ _ _ Reach.init (drive_sound _ rs)
+
+/-- Position-wise form: the `i`-th answer of a script is `respond` in the state after the first
+`i` requests. -/
+theorem accepted_answer_at (s : CState) (r1 : List Req) (r : Req) (r2 : List Req) :
+    (drive s (r1 ++ r :: r2)).2.1[r1.length]? = some (respond (drive s r1).1 r).resp :=
+  drive_resp_at s r1 r r2
+
+/-- **accepted_hit_is_fresh.** In an accepted scheduled trace, a `Get k` answered `hit v` after the
+requests `rs` (cleaners parked and released anywhere in between) returns what the backwards scan
+over the script's own Set/Delete/Advance requests yields, younger than `min(ttl, MaxTTL?)`. -/
+theorem accepted_hit_is_fresh (maxTTL t0 period : Int) (rs : List Req) (k : Key) (v : Val)
+    (hhit : (respond (drive (CState.init maxTTL t0 period) rs).1 (.get k)).resp = .hit v)
+    (hno : ∀ k' v' ttl, Req.set k' v' ttl ∈ rs → NoOverflow maxTTL ttl) :
+    ∃ ttl el, lastLive k ((rs.filterMap reqOp).reverse) 0 = some (v, ttl, el) ∧
+      (el : Int) < effTTL maxTTL ttl * second := by
+  have hget := respond_get_hit _ k v hhit
+  have hrun := drive_sound (CState.init maxTTL t0 period) rs
+  have hproj := drive_projOp (CState.init maxTTL t0 period) rs
+  have := hit_is_fresh_trace maxTTL t0 period _ _ k v hrun hget (by
+    intro k' v' ttl hl
+    have h1 : Op.set k' v' ttl ∈ (drive (CState.init maxTTL t0 period) rs).2.2.filterMap projOp :=
+      List.mem_filterMap.2 ⟨_, hl, rfl⟩
+    rw [hproj] at h1
+    obtain ⟨r, hr1, hr2⟩ := List.mem_filterMap.1 h1
+    cases r <;> simp only [reqOp] at hr2 <;> try (cases hr2)
+    case set k2 v2 t2 =>
+      split at hr2
+      · cases hr2
+      · simp only [Option.some.injEq, Op.set.injEq] at hr2
+        obtain ⟨rfl, rfl, rfl⟩ := hr2
+        exact hno _ _ _ hr1)
+  rw [hproj] at this
+  exact this
+
+/-- **accepted_stop_return_means_exited.** Whenever the acceptor answers a concurrent `Stop` caller
+with `returned` (from any reachable state), the periodic goroutine has exited in the resulting
+state — so a real trace in which some Stop returns while the cleaner is parked is never accepted. -/
+theorem accepted_stop_return_means_exited {maxTTL t0 period : Int} {s : CState}
+    (hr : Reach maxTTL t0 period s) (id : Nat)
+    (h : (respond s (.stopcall id)).resp = .returned) :
+    (respond s (.stopcall id)).state.bg = .exited := by
+  simp only [respond] at h ⊢
+  rcases firstRun_spec s [([Label.stopCall id, .bgExit, .stopReturn id], Resp.returned),
+      ([Label.stopCall id, .stopReturn id], Resp.returned), ([Label.stopCall id], Resp.blocked)] with h1 | ⟨a, ha, _, h2, h3⟩
+  · rw [h1.2] at h; cases h
+  · simp only [List.mem_cons, List.not_mem_nil, or_false] at ha
+    rcases ha with rfl | rfl | rfl
+    · obtain ⟨s2, hs2, hst⟩ := crun_snoc (pre := [Label.stopCall id, .bgExit]) (l := .stopReturn id) h3
+      have hr2 := reach_of_crun _ _ _ hr hs2
+      exact exited_is_final hr2 hst (stop_waits_cleaner hr2 id hst).1
+    · obtain ⟨s2, hs2, hst⟩ := crun_snoc (pre := [Label.stopCall id]) (l := .stopReturn id) h3
+      have hr2 := reach_of_crun _ _ _ hr hs2
+      exact exited_is_final hr2 hst (stop_waits_cleaner hr2 id hst).1
+    · rw [h2] at h; cases h
+
+/-- Non-vacuity: a script with a parked periodic cleaner, a refresh, two blocked Stop callers. -/
+example :
+    (drive (CState.init 0 0 1000000000)
+      [.set "a" 1 1, .adv 2000000000, .bgsnap, .stopcall 1, .stopcall 2, .set "a" 2 9, .get "a",
+       .bgfinish, .stopwait 2, .stopwait 1, .get "a"]).2.1
+    = [.ok, .ticked .sent, .snap ["a"], .blocked, .blocked, .ok, .hit 2, .ok, .ok, .ok, .miss] := by
+  decide
 
 /-! ## T1: the source's shape, regenerated from ttlcache.go on every run (`KitModel/Generated/C15.lean`)
 
